@@ -468,8 +468,17 @@ def e_ConstrainedCP(g):
     return dict(fn=fn, kwargs=dict(tensor=tensor, **kw))
 
 
+def _concrete_tucker_rank(shape, rank):
+    """The rank list a 'same' / fractional specification stands for (needed to build a matching user init)."""
+    if isinstance(rank, (list, tuple)):
+        return [min(int(r), 9) for r in rank]
+    from tensorly.tucker_tensor import validate_tucker_rank
+
+    return [int(r) for r in validate_tucker_rank(tuple(shape), rank)]
+
+
 def _tucker_rank(g, shape):
-    return g.choice([[2] * len(shape), [min(s, 2 + (i % 2)) for i, s in enumerate(shape)], [1] * len(shape), [9] + [2] * (len(shape) - 1)])
+    return g.choice([[2] * len(shape), [min(s, 2 + (i % 2)) for i, s in enumerate(shape)], [1] * len(shape), [9] + [2] * (len(shape) - 1), "same", 0.5])
 
 
 @entry("tucker", seeded=True)
@@ -481,7 +490,7 @@ def e_tucker(g):
     kw = dict(tensor=g.low_rank(shape, 2), rank=rank, n_iter_max=g.choice([2, 1, 3]))
     init = g.choice(["svd", "random", "user"])
     if init == "user":
-        kw["init"] = g.tucker_init(shape, rank)
+        kw["init"] = g.tucker_init(shape, _concrete_tucker_rank(shape, rank))
     elif init == "random" or g.flag(0.3):
         kw["init"] = init
     svd_opt(g, kw, 0.35)
@@ -491,12 +500,13 @@ def e_tucker(g):
         kw["mask"] = g.arr(shape, nonneg=True) > 0.3
     if g.flag(0.2):
         fm = g.choice([[0], [len(shape) - 1], [0, 1]])
-        core_shape = [shape[m] if m in fm else rank[m] for m in range(len(shape))]
+        crank = _concrete_tucker_rank(shape, rank)
+        core_shape = [shape[m] if m in fm else crank[m] for m in range(len(shape))]
         rs = g.rs()
         facs = [g.arr((shape[m], shape[m]), rs=rs, kinds=("c", "f")) for m in fm]
         kw["fixed_factors"] = fm
         kw["init"] = (g.arr(core_shape, rs=rs, kinds=("c",)), [
-            facs[fm.index(m)] if m in fm else g.arr((shape[m], rank[m]), rs=rs, kinds=("c",)) for m in range(len(shape))
+            facs[fm.index(m)] if m in fm else g.arr((shape[m], crank[m]), rs=rs, kinds=("c",)) for m in range(len(shape))
         ])
         kw.pop("mask", None)
     kw["random_state"] = g.seed()
@@ -512,7 +522,7 @@ def e_Tucker(g):
     kw = dict(rank=rank, n_iter_max=g.choice([2, 1]))
     init = g.choice(["svd", "random", "user"])
     if init == "user":
-        kw["init"] = g.tucker_init(shape, rank)
+        kw["init"] = g.tucker_init(shape, _concrete_tucker_rank(shape, rank))
     elif init == "random":
         kw["init"] = init
     svd_opt(g, kw, 0.3)
@@ -562,7 +572,7 @@ def e_nn_tucker(g):
     kw = dict(tensor=g.low_rank(shape, 2, nonneg=True), rank=rank, n_iter_max=g.choice([2, 1, 3]))
     init = g.choice(["svd", "random", "user"])
     if init == "user":
-        kw["init"] = g.tucker_init(shape, rank, nonneg=True)
+        kw["init"] = g.tucker_init(shape, _concrete_tucker_rank(shape, rank), nonneg=True)
     elif init == "random":
         kw["init"] = init
     g.opt(kw, "return_errors", [True], 0.3)
@@ -581,7 +591,7 @@ def e_nn_tucker_hals(g):
     kw = dict(tensor=g.low_rank(shape, 2, nonneg=True), rank=rank, n_iter_max=g.choice([2, 1]))
     init = g.choice(["svd", "random", "user"])
     if init == "user":
-        kw["init"] = g.tucker_init(shape, rank, nonneg=True)
+        kw["init"] = g.tucker_init(shape, _concrete_tucker_rank(shape, rank), nonneg=True)
     elif init == "random":
         kw["init"] = init
     svd_opt(g, kw, 0.25)
@@ -773,7 +783,7 @@ def e_tt(g):
     import tensorly.decomposition as D
 
     shape = g.choice([g.shapeN(), g.shapeN(), g.shapeN(), (6, 20, 20)])  # the last: unfoldings with a dimension >= 256
-    rank = g.choice([2, [1] + [2] * (len(shape) - 1) + [1], 1, [1] + [9] * (len(shape) - 1) + [1], tuple([1] + [2] * (len(shape) - 1) + [1])])
+    rank = g.choice([2, [1] + [2] * (len(shape) - 1) + [1], 1, [1] + [9] * (len(shape) - 1) + [1], tuple([1] + [2] * (len(shape) - 1) + [1]), "same", 0.5])
     kw = dict(input_tensor=g.low_rank(shape, 2), rank=rank)
     svd_opt(g, kw, 0.4, randomized=False)
     return dict(fn=D.tensor_train, kwargs=kw)
@@ -1140,7 +1150,10 @@ def e_inner_outer(g, which):
     elif which == "batched_outer":
         kw = dict(tensors=[g.arr((3, 2), rs=rs), g.arr((3, 4), rs=rs)])
     elif which == "tensordot":
-        kw = dict(tensor1=g.arr((3, 4, 2), rs=rs), tensor2=g.arr((3, 4, 5), rs=rs), modes=[1], batched_modes=[0])
+        form = g.choice(["flat", "pair", "pair_neg", "int", "tuple_pair"])
+        modes, batched = {"flat": ([1], [0]), "pair": (([1], [1]), ([0], [0])), "pair_neg": (([-2], [-2]), ([0], [-3])),
+                          "int": (1, 0), "tuple_pair": (((1,), (1,)), ((0,), (0,)))}[form]
+        kw = dict(tensor1=g.arr((3, 4, 2), rs=rs), tensor2=g.arr((3, 4, 5), rs=rs), modes=modes, batched_modes=batched)
     else:
         kw = dict(tensor=g.arr((5, 3), rs=rs), order=1)
         which = "higher_order_moment"
@@ -1575,23 +1588,23 @@ def e_random(g, which):
     if which == "random_tensor":
         kw = dict(shape=g.shape3())
     elif which == "random_cp":
-        kw = dict(shape=g.shapeN(), rank=g.choice([2, 1, 3]))
+        kw = dict(shape=g.shapeN(), rank=g.choice([2, 1, 3, "same", 0.5]))
         g.opt(kw, "full", [True], 0.3)
         g.opt(kw, "orthogonal", [True], 0.3)
         g.opt(kw, "normalise_factors", [False], 0.3)
     elif which == "random_tucker":
-        kw = dict(shape=g.shape3(), rank=g.choice([2, [2, 2, 1]]))
+        kw = dict(shape=g.shape3(), rank=g.choice([2, [2, 2, 1], "same", 0.5]))
         g.opt(kw, "full", [True], 0.3)
         g.opt(kw, "orthogonal", [True], 0.3)
         g.opt(kw, "non_negative", [True], 0.3)
     elif which == "random_tt":
-        kw = dict(shape=g.shape3(), rank=g.choice([2, [1, 2, 2, 1]]))
+        kw = dict(shape=g.choice([g.shape3(), (3, 4, 2), (6, 20, 20)]), rank=g.choice([2, [1, 2, 2, 1], "same", 0.5]))
         g.opt(kw, "full", [True], 0.3)
     elif which == "random_tt_matrix":
         kw = dict(shape=(2, 2, 3, 3), rank=g.choice([2, [1, 2, 1]]))
         g.opt(kw, "full", [True], 0.3)
     elif which == "random_tr":
-        kw = dict(shape=g.shape3(), rank=g.choice([2, [2, 1, 2, 2]]))
+        kw = dict(shape=g.shape3(), rank=g.choice([2, [2, 1, 2, 2], "same", 0.5]))
         g.opt(kw, "full", [True], 0.3)
     else:
         kw = dict(shapes=g.choice([[(4, 3)] * 3, [(4, 3), (3, 3), (5, 3)]]), rank=g.choice([2, 1]))
@@ -1956,3 +1969,70 @@ def e_base2(g, which):
 
 
 split_entry("base", e_base2, ["vec_to_tensor", "partial_fold", "partial_vec_to_tensor", "partial_unfold_end", "matricize_rows"], deterministic=True)
+
+
+# =============================================================== families: several functions on one shape / rank specification
+# Hidden state shared between the functions of one format (rank validators, caches keyed by shape or rank)
+# shows only when they are called one after the other on the same specification.
+
+
+def e_family(g, which):
+    import tensorly as tl
+    import tensorly.decomposition as D
+    import tensorly.random as R
+
+    g.notes["which"] = which
+    seed = g.seed()
+    if which == "tt":
+        shape = g.choice([(3, 4, 2), (3, 20, 20), (4, 3, 3), (2, 3, 2, 2)])
+        rank = g.choice(["same", 0.5, 0.9, 2, [1] + [2] * (len(shape) - 1) + [1]])
+
+        def fn(shape, rank, random_state):
+            a = R.random_tt(shape, rank, random_state=random_state)
+            full = R.random_tt(shape, rank, full=True, random_state=random_state)
+            d = D.tensor_train(full, rank)
+            b = R.random_tt(shape, rank, random_state=random_state)
+            return a, d, b, tl.tt_tensor.validate_tt_rank(shape, rank)
+
+    elif which == "tr":
+        shape = g.choice([(3, 4, 2), (4, 3, 3), (3, 3, 3)])
+        rank = g.choice(["same", 0.5, 2, [2, 1, 2, 2]])
+
+        def fn(shape, rank, random_state):
+            a = R.random_tr(shape, rank, random_state=random_state)
+            full = R.random_tr(shape, rank, full=True, random_state=random_state)
+            try:
+                d = D.tensor_ring(full, rank)
+            except ValueError:
+                d = None
+            b = R.random_tr(shape, rank, random_state=random_state)
+            return a, d, b, tl.tr_tensor.validate_tr_rank(shape, rank)
+
+    elif which == "tucker":
+        shape = g.choice([(3, 4, 2), (4, 3, 3), (3, 3, 3)])
+        rank = g.choice(["same", 0.5, [2, 2, 2], 2])
+
+        def fn(shape, rank, random_state):
+            a = R.random_tucker(shape, rank, random_state=random_state)
+            full = R.random_tucker(shape, rank, full=True, random_state=random_state)
+            d = D.tucker(full, rank, n_iter_max=2, random_state=random_state)
+            b = R.random_tucker(shape, rank, random_state=random_state)
+            return a, d, b, tl.tucker_tensor.validate_tucker_rank(shape, rank)
+
+    else:
+        shape = g.choice([(3, 4, 2), (4, 3, 3), (4, 3)])
+        rank = g.choice(["same", 0.5, 2, 3])
+
+        def fn(shape, rank, random_state):
+            a = R.random_cp(shape, rank, random_state=random_state)
+            full = R.random_cp(shape, rank, full=True, random_state=random_state)
+            d = D.parafac(full, rank, n_iter_max=2, init="random", random_state=random_state)
+            b = R.random_cp(shape, rank, random_state=random_state)
+            return a, d, b, tl.cp_tensor.validate_cp_rank(shape, rank)
+
+    return dict(fn=fn, kwargs=dict(shape=shape, rank=list(rank) if isinstance(rank, list) else rank, random_state=seed))
+
+
+split_entry("family", e_family, ["tt", "tr", "tucker", "cp"], seeded=True, groups=("c16", "c15"))
+for _k in ("family:tt", "family:tr", "family:tucker", "family:cp"):
+    ENTRIES[_k]["weight"] = 2
